@@ -357,7 +357,7 @@ if __name__ == "__main__":
     main("C09", [PhysicsStream(), IfaceStream()],
          source_obligations=[
              source_obligation("BlocksSrc_C09", translate_blocks.translate, "BlocksSrcProof.v",
-                               ["Waveguide_src_ok", "PhaseShifter_src_ok", "PushPull_src_ok", "TH_PhaseShifter_src_ok",
+                               ["Waveguide_src_ok", "UserWaveguide2_src_ok", "PhaseShifter_src_ok", "PushPull_src_ok", "TH_PhaseShifter_src_ok",
                                 "Attenuator_src_ok", "LinearAttenuator_src_ok", "Mirror_src_ok", "PerfectMirror_src_ok",
                                 "BeamSplitter_src_ok", "BeamSplitterT_src_ok", "Splitter1x2_src_ok", "PolRot_fixed_src_ok",
                                 "PolRot_var_src_ok"], allowed_axioms=REAL_AXIOMS)],
